@@ -78,6 +78,7 @@ func (r *c19) Exec(op []string) string {
 		r.size = atoi(op[1])
 		r.src = &c19src{}
 		r.c = distinct.NewCounter[int](r.size) // the public constructor
+		lbNote(r.st, "public-NewCounter-size", r.size)
 		r.seen = map[int]bool{}
 		r.pub = true
 		r.st.Note("public-NewCounter")
@@ -103,6 +104,7 @@ func (r *c19) Exec(op []string) string {
 			r.st.Note("public-reset")
 		} else if distinct.VerifP(r.c) != math.MaxUint64 {
 			r.st.Note("reset-after-halving")
+			lbNote(r.st, "reset-after-halving-size", r.size)
 		} else {
 			r.st.Note("reset-in-exact-regime")
 		}
@@ -176,6 +178,12 @@ func (r *c19) Exec(op []string) string {
 		}
 		if n1 > r.size {
 			r.st.Note("Len>size(F8)")
+		}
+		if p1 != p0 {
+			lbNote(r.st, "halving-pass-size", r.size)
+			if k >= 2 {
+				lbNote(r.st, fmt.Sprintf("halving-pass-number>=%d-size", min(k, 4)), r.size)
+			}
 		}
 		if k >= 32 {
 			r.st.Note("k>=32")
@@ -368,6 +376,7 @@ func genC19(g *G) {
 		}
 		g.Case(ops)
 	}
+	genC19Large(g)
 }
 
 // ---- C19.stat ----
